@@ -41,6 +41,8 @@ def run(chk, facts, tier):
     chk.rule('status-recorded-at-completion', 'security_connection_data records pairing_status_ in legacy/lesc_pairing_completed from the algorithm of the exchange that completed', floor=2)
     chk.rule('completion-waits-for-user', 'every call of lesc_check_dhkey_and_complete_pairing (verifies Ea, records the authenticated key) is excluded while the user is still asked or has refused: '
              'it is control dependent on state() != user_response_wait and != user_response_failed, or on state() == user_response_success', floor=2)
+    chk.rule('numeric-comparison-asks-user', 'lesc_handle_pairing_random: the value is displayed and the user asked (sm_pairing_numeric_compare_output, sm_pairing_request_yes_no) under exactly lesc_pairing_algorithm() == numeric_comparison '
+             'behind the size and state checks - no further condition: whenever numeric comparison is the method that will be reported as authenticated, the user was asked', floor=2)
     chk.rule('authenticated-methods-implemented', 'every LESC algorithm that is reported as authenticated_key is distinguished by a branch in the LESC handlers (its own exchange is implemented)', floor=2)
     D = 'bluetoe::details::'
     for cls in ('legacy_security_connection_data', 'lesc_security_connection_data', 'security_connection_data'):
@@ -130,4 +132,25 @@ def run(chk, facts, tier):
             ok = 'user_response_success' in eq or 'lesc_pairing_random_exchanged' in eq or {'user_response_wait', 'user_response_failed'} <= ne
             chk.instance('completion-waits-for-user', fn, 'lesc_check_dhkey_and_complete_pairing() in %s under state == %s / != %s' % (fn.name, sorted(eq), sorted(ne)), ok,
                          '' if ok else 'the DHKey check is verified and the pairing completed as authenticated while the numeric comparison / passkey is still waiting for (or was refused by) the user', node=c, key='complete in ' + fn.name)
+    for fn in facts.functions:
+        if fn.kind not in ('pattern', 'plain') or fn.q != 'bluetoe::details::security_manager_base::lesc_handle_pairing_random':
+            continue
+        for nm in ('sm_pairing_numeric_compare_output', 'sm_pairing_request_yes_no'):
+            cs = fn.body.calls(nm)
+            ok, why = len(cs) == 1, 'expected exactly one call'
+            if ok:
+                alg, other = False, []
+                for l, op, r in guard_atoms(fn, cs[0]):
+                    if isinstance(l, int):
+                        continue
+                    x = strip_casts(l)
+                    if x.is_call('lesc_pairing_algorithm') and op == '==' and not isinstance(r, int) and strip_casts(r).n == 'numeric_comparison':
+                        alg = True
+                    elif (x.is_call('state') and not x.args()) or is_name(x, 'in_size') or (x.k == 'DeclRefExpr' and x.d.get('local') and resolve_local(x) is not None):
+                        continue
+                    else:
+                        other.append(l.text()[:60] + ' ' + op)
+                ok = alg and not other
+                why = 'the user is not asked for every numeric comparison (further condition: %s): the pairing completes and is reported as authenticated although nobody compared the values' % (other or 'method test missing')
+            chk.instance('numeric-comparison-asks-user', fn, '%s() under lesc_pairing_algorithm() == numeric_comparison only' % nm, ok, '' if ok else why, node=cs[0] if cs else None, key=nm)
 
